@@ -1,5 +1,6 @@
 """Plain `cargo run` of a replay / enumerator crate against the real crates (path deps to the tree under check)."""
 import os
+import re
 import shutil
 from engine.core import sh, Undecided, SCRATCH_ROOT, CACHE, VERIF, REPO
 
@@ -29,6 +30,33 @@ def run_replay(prop, crate_dir_name, args, repo_root=None, extra_files=None, tim
     if rc == 101 and "could not compile" in err:
         raise Undecided("replay crate %s does not compile against the tree: %s" % (crate_dir_name, err[-1200:].replace("\n", " | ")))
     return rc, out, err, secs
+
+
+def build_bin(prop, crate_dir_name, repo_root=None, timeout=1800):
+    """Build a replay crate once against the tree under check; returns the path of the binary (to be run several
+    times, e.g. one process per site when a failure kills the process)."""
+    repo_root = repo_root or REPO
+    src = os.path.join(VERIF, "replay_src", crate_dir_name)
+    dst = os.path.join(SCRATCH_ROOT, prop, "replay_" + crate_dir_name)
+    shutil.rmtree(dst, ignore_errors=True)
+    os.makedirs(os.path.dirname(dst), exist_ok=True)
+    shutil.copytree(src, dst)
+    ct = open(os.path.join(dst, "Cargo.toml")).read().replace("@REPO@", repo_root)
+    open(os.path.join(dst, "Cargo.toml"), "w").write(ct)
+    lock = os.path.join(repo_root, "Cargo.lock")
+    if os.path.exists(lock):
+        shutil.copy(lock, os.path.join(dst, "Cargo.lock"))
+    # a target dir per tree under check would be cleaner, but the cache is keyed by path deps anyway; the binary is
+    # copied out so that a concurrent build of the same crate against another tree cannot replace it under us
+    env = {"CARGO_TARGET_DIR": os.path.join(CACHE, "native-target"), "RUSTFLAGS": "-Awarnings"}
+    rc, out, err, secs = sh(["cargo", "build", "--offline", "-q"], cwd=dst, env=env, timeout=timeout)
+    if rc != 0:
+        shutil.rmtree(dst, ignore_errors=True)
+        raise Undecided("replay crate %s does not build against the tree: %s" % (crate_dir_name, err[-1200:].replace("\n", " | ")))
+    name = re.search(r'name\s*=\s*"([^"]+)"', ct).group(1)
+    binp = os.path.join(dst, name + ".bin")
+    shutil.copy(os.path.join(CACHE, "native-target", "debug", name), binp)
+    return binp, dst
 
 
 def bounded_stand_in(rep, prop, crate, args, name, what, bound, functions, replay_hint):
